@@ -22,6 +22,7 @@ import (
 	"fmt"
 	"io"
 	"log/slog"
+	"os"
 	"runtime"
 	"sort"
 	"strings"
@@ -62,6 +63,9 @@ func c07Gen(r *kit.Rand, idx int) *c07Case {
 	cs := &c07Case{Index: idx}
 	cfg := &cs.Cfg
 	cfg.Kind = kit.Pick(r, []string{"causal", "causal", "causal", "causal", "causal", "noshift", "noshift", "refuse", "refuse", "swa", "wrapper", "wrapper"})
+	if k := os.Getenv("VERIF_C07_KIND"); k != "" {
+		cfg.Kind = k // exploration aid (never set by ./check): force the cache kind of every case
+	}
 	cfg.Parallel = kit.Pick(r, []int{1, 1, 2, 2, 2, 3, 4})
 	switch r.Intn(10) {
 	case 0:
@@ -453,7 +457,7 @@ func c07RunCase(cs *c07Case) *c07Outcome {
 			}
 			t = t[1:]
 		}
-		if len(t) == 0 || len(rc.toks) >= cfg.NumCtx {
+		if len(t) == 0 || len(rc.toks) > cfg.NumCtx {
 			continue
 		}
 		var sb strings.Builder
@@ -468,7 +472,9 @@ func c07RunCase(cs *c07Case) *c07Outcome {
 		if !ok {
 			continue
 		}
-		sb.WriteByte('a' + byte(len(t)%(cfg.Vocab-1)))
+		if len(rc.toks) < cfg.NumCtx {
+			sb.WriteByte('a' + byte(len(t)%(cfg.Vocab-1))) // a full record is repeated exactly instead
+		}
 		q := &c07Req{Idx: len(cs.Reqs) + len(audits), Prompt: sb.String(), NumPredict: 2, NumKeep: 0, Kind: "audit"}
 		audits = append(audits, q)
 		w.start(q)
@@ -503,7 +509,7 @@ func TestVerifC07(t *testing.T) {
 		"text-only inputs: multimodal inputs (SameBatch) and embedding requests are not exercised; cache-less models (InputCache.enabled == false) are not exercised",
 		"runner/llamarunner is not exercised (its cache operations are cgo calls on a *llama.Context and need a real llama.cpp model)",
 	})
-	n := cfg.N(1600, 120000)
+	n := cfg.N(12000, 250000)
 	replayIdx := -1
 	if cfg.Replay != "" {
 		var rc struct {
